@@ -472,7 +472,11 @@ def generate_input(
         json_dict = {"comments": "",
                      "ranges": ranges_dict}
 
-        filename = os.path.join(input_dir, f'{label}.json')
+        # One input file per bias ratio.
+        if len(bias_ratios) > 1:
+            filename = os.path.join(input_dir, f'{label}_eta-{eta}.json')
+        else:
+            filename = os.path.join(input_dir, f'{label}.json')
 
         with open(filename, 'w') as json_file:
             json.dump(json_dict, json_file, indent=4)
